@@ -259,7 +259,19 @@ def gen_collector(rng, tree):
         form = "collector%s:%s-vs-%s" % (oper, lnode.kind, _rnode.kind)
     if rng.random() < 0.3:
         ltxt = join(render(lhs[:-1], sep), "*", sep)
-    return "(%s)%s(%s)" % (ltxt, oper, rtxt), form
+    text = "(%s)%s(%s)" % (ltxt, oper, rtxt)
+    # chains: (L)-(R1)-(R2), (L)+(R1)-(R2), ...
+    for _ in range(rng.choice([0, 0, 1, 1, 2])):
+        oper2 = rng.choice(["+", "-", "-", "&"])
+        if lnode.kind == "m" and lnode.items and rng.random() < 0.7:
+            key, _val = rng.choice(lnode.items)
+            extra = render(lhs + (("k", key),), sep)
+        else:
+            other, _n = rng.choice(pool)
+            extra = render(other, sep)
+        text += "%s(%s)" % (oper2, extra)
+        form += "|chain" + oper2
+    return text, form
 
 
 def gen_create(rng, tree):
